@@ -46,6 +46,7 @@ type Sink struct {
 	Expr    string // stable fingerprint for known findings
 	Terms   []string // checked-arith: the leaf terms (affine atoms) of all operands
 	BoundedCall bool // the operand is a call of a module function whose every return is bounded by BaseLen
+	Instr       ssa.Instruction // the indexing / slicing instruction (for the linear fallback)
 	ShrinkBody  map[*ssa.BasicBlock]bool // the base is re-sliced around a loop (s = s[1:]): that loop's blocks; only conditions established inside it speak about the current length
 }
 
@@ -129,7 +130,7 @@ func (ge *GuardEngine) Sinks(fn *ssa.Function, env *Env, conds []Cond, chain []s
 	var out []Sink
 	add := func(in ssa.Instruction, b *ssa.BasicBlock, kind, operand, base string, baseLen int64, expr string) {
 		cs := append(append([]Cond{}, conds...), ge.domConds(fi, b, env)...)
-		out = append(out, Sink{Fn: fn, Pos: in.Pos(), Kind: kind, Operand: operand, Base: base, BaseLen: baseLen, Conds: cs, Chain: chain, Expr: expr})
+		out = append(out, Sink{Fn: fn, Pos: in.Pos(), Kind: kind, Operand: operand, Base: base, BaseLen: baseLen, Conds: cs, Chain: chain, Expr: expr, Instr: in})
 	}
 	arrLen := func(t types.Type) int64 {
 		if pt, ok := t.Underlying().(*types.Pointer); ok {
@@ -463,7 +464,7 @@ func (s Sink) Discharged() (bool, string) {
 				}
 			}
 		}
-		if op == "*" || op == "idx" {
+		if op == "*" || op == "idx" || strings.HasPrefix(op, "*from") {
 			// range/induction index: needs a loop test against the base's length (or the loop ranges the base itself)
 			for _, c := range s.Conds {
 				if c.Loop && (strings.Contains(c.R, lenBase) || strings.Contains(c.L, lenBase)) {
@@ -936,4 +937,35 @@ func evalConstAtom(a string) (int64, bool) {
 	v, ok := expr()
 	skip()
 	return v, ok && pos == len(a)
+}
+
+// LinearDischarge: an index that the dominating-bound rules could not discharge is in range if the linear forms
+// of the index and of the base's length, with the branch facts that hold at the instruction (loop variables are
+// symbols: the facts of the current iteration speak about them), entail 0 <= idx < len(base). Only index sinks.
+func (ge *GuardEngine) LinearDischarge(s Sink) (bool, string) {
+	if s.Kind != "index" || s.Instr == nil || s.ShrinkBody != nil {
+		return false, ""
+	}
+	var base, idx ssa.Value
+	switch x := s.Instr.(type) {
+	case *ssa.IndexAddr:
+		base, idx = x.X, x.Index
+	case *ssa.Index:
+		base, idx = x.X, x.Index
+	default:
+		return false, ""
+	}
+	at := s.Instr.Block()
+	upper := ge.LinProve(LinGoal{Terms: []LinTerm{{V: base, Len: true, Coef: 1}, {V: idx, Coef: -1}}, K: -1, At: at})
+	if !upper.OK {
+		return false, ""
+	}
+	if b, ok := idx.Type().Underlying().(*types.Basic); ok && b.Info()&types.IsUnsigned != 0 {
+		return true, "linear facts at the access entail idx < len"
+	}
+	lower := ge.LinProve(LinGoal{Terms: []LinTerm{{V: idx, Coef: 1}}, At: at})
+	if !lower.OK {
+		return false, ""
+	}
+	return true, "linear facts at the access entail 0 <= idx < len"
 }
